@@ -535,8 +535,11 @@ func c14Lookup(c *Ctx, p *Prog) {
 		name, _ := constString(call.Call.Args[0])
 		got[name] = map[string]bool{}
 		for _, r := range referrers(call) {
-			if bo, ok := r.(*ssa.BinOp); ok && bo.Op == token.EQL {
+			if bo, ok := r.(*ssa.BinOp); ok && (bo.Op == token.EQL || bo.Op == token.NEQ) {
 				if s, ok := constString(bo.Y); ok {
+					got[name][s] = true
+				}
+				if s, ok := constString(bo.X); ok {
 					got[name][s] = true
 				}
 			}
